@@ -30,6 +30,7 @@ open OmplModel OmplModel.Control
 inductive Ctl (α : Type) where
   | real (v : List α)
   | disc (v : Int)
+deriving DecidableEq
 
 /-- `RealVectorControlSpace::bounds_` / `DiscreteControlSpace::lowerBound_, upperBound_` -/
 inductive CBounds (α : Type) where
@@ -115,6 +116,7 @@ inductive Out (α S : Type) where
   | ctl (u : Ctl α)
   | steps (k : Nat)
   | to (r : Option (Ctl α × Nat × S))
+deriving DecidableEq
 
 variable {α ρ S δ : Type}
 
@@ -190,5 +192,65 @@ def OpOK (le : α → α → Prop) : Op α ρ S → Prop
   | .setMinMax a b => a ≤ b
   | .stepCount a b => a ≤ b
   | _ => True
+
+/-! ## re-entrancy of `propagateWhileValid`
+
+`control::SpaceInformation::propagateWhileValid` is a `const` member whose buffers are the caller's `result` and a
+temporary it allocates and frees itself; the user's `isValid` runs between its steps and may do anything — in particular
+run another complete propagation on the same `SpaceInformation` (a second planner sharing it, `tools::ParallelPlan`).
+`pwvM` is `pwv` with such a callback: it owns a world `σ`, sees the state by value and returns its verdict.  `pwvShared`
+is the variant that keeps ONE scratch state in the shared object (`getS` / `setS` on the world) and ping-pongs between
+`result` and that scratch — the callback can overwrite it. -/
+section reentrant
+variable {S U σ : Type}
+
+def pwvLoopM (step : S → U → S) (cb : σ → S → Bool × σ) (u : U) : Nat → Nat → S → σ → (Nat × S) × σ
+  | 0, i, cur, w => ((i, cur), w)
+  | fuel + 1, i, cur, w =>
+    let nxt := step cur u
+    let r := cb w nxt
+    if r.1 then pwvLoopM step cb u fuel (i + 1) nxt r.2 else ((i, cur), r.2)
+
+def pwvM (step : S → U → S) (cb : σ → S → Bool × σ) (s : S) (u : U) : Nat → σ → (Nat × S) × σ
+  | 0, w => ((0, s), w)
+  | n + 1, w =>
+    let first := step s u
+    let r := cb w first
+    if r.1 then pwvLoopM step cb u n 1 first r.2 else ((0, s), r.2)
+
+/-- `inScr`: `temp1` (the last valid state) currently IS the shared scratch; `loc` is the content of `result` -/
+def pwvLoopShared (step : S → U → S) (cb : σ → S → Bool × σ) (getS : σ → S) (setS : σ → S → σ) (u : U) :
+    Nat → Nat → Bool → S → σ → (Nat × S) × σ
+  | 0, i, inScr, loc, w => ((i, if inScr then getS w else loc), w)
+  | fuel + 1, i, inScr, loc, w =>
+    if inScr then
+      let nxt := step (getS w) u          -- propagate(temp1 = scratch, …, temp2 = result)
+      let r := cb w nxt
+      if r.1 then pwvLoopShared step cb getS setS u fuel (i + 1) false nxt r.2
+      else ((i, getS r.2), r.2)           -- copyState(result, temp1 = scratch) after the callback ran
+    else
+      let nxt := step loc u               -- propagate(temp1 = result, …, temp2 = scratch)
+      let r := cb (setS w nxt) nxt
+      if r.1 then pwvLoopShared step cb getS setS u fuel (i + 1) true loc r.2
+      else ((i, loc), r.2)
+
+def pwvShared (step : S → U → S) (cb : σ → S → Bool × σ) (getS : σ → S) (setS : σ → S → σ) (s : S) (u : U) :
+    Nat → σ → (Nat × S) × σ
+  | 0, w => ((0, s), w)
+  | n + 1, w =>
+    let first := step s u
+    let r := cb w first
+    if r.1 then pwvLoopShared step cb getS setS u n 1 false first r.2 else ((0, s), r.2)
+
+/-- the callback of the re-entrancy runs: judge the state, count the query, and at query number `k` run the complete
+second call `(s2, u2, n2)` (its own nested queries are plain `valid`) and record its result -/
+def nestCbX {β : Type} (valid : S → Bool) (k : Nat) (x : β) : Nat × Option β → S → Bool × (Nat × Option β)
+  | (c, rec), s => (valid s, (c + 1, if c = k then some x else rec))
+
+def nestCb (step : S → U → S) (valid : S → Bool) (k : Nat) (s2 : S) (u2 : U) (n2 : Nat) :
+    Nat × Option (Nat × S) → S → Bool × (Nat × Option (Nat × S)) :=
+  nestCbX valid k (pwv step valid s2 u2 n2)
+
+end reentrant
 
 end OmplModel.ControlReconf
